@@ -1,5 +1,6 @@
 import GoawkModel.Basic
 import GoawkModel.C02
+import GoawkModel.C02Str
 /-! Line-protocol handler for property C02: one request line (already split into words) → one answer line.
 
   verify <nNums> <nStrs> <nRegexes> <nScalars> <nArrays> <nNative> <nFuncs> (F <numScalars> <numArrays> <len> <word>*)*
@@ -7,6 +8,7 @@ import GoawkModel.C02
   field get <nFields> <bits16hex> | field set <nFields> <bits> | field nf <bits> | field argc <bits>
   consts                                                     → <maxCallDepth> <maxFieldIndex> <numOpcodes>
   depth <n>                                                  → outcome of n nested calls of a one-function program
+  substr b|c <hex string> <bits16hex pos> [<bits16hex length>] → ok <hex> | stuck   (b = byte mode, c = character mode)
 -/
 namespace GoawkModel.Drv.C02
 open GoawkModel GoawkModel.C02 GoawkModel.Generated
@@ -139,6 +141,17 @@ def handle (args : List String) : String :=
     match hexNat bits with
     | some b => if setARGC (Num.ofBits b) then "ok" else "error"
     | none => "bad-request"
+  | "substr" :: mode :: sh :: pb :: rest =>
+    let lenBits : Option (Option Nat) := match rest with
+      | [] => some none
+      | [lb] => (hexNat lb).map some
+      | _ => none
+    match fromHex sh, hexNat pb, lenBits with
+    | some s, some p, some lb =>
+      match substr (mode == "c") s (Num.ofBits p) (lb.map Num.ofBits) with
+      | .ok b => "ok " ++ toHex b
+      | .stuck => "stuck"
+    | _, _, _ => "bad-request"
   | ["consts"] => s!"{Consts.maxCallDepth} {Consts.maxFieldIndex} {C02Arity.numOpcodes}"
   | ["depth", n] => match n.toNat? with | some n => depthProbe n | none => "bad-request"
   | _ => "bad-request"
